@@ -521,11 +521,32 @@ where
     pub fn remove(&mut self, key: Handle) -> Option<T> {
         let ind = self.find_ind(key);
         unsafe {
-            let kptr = self.handles.as_ptr().add(ind);
-            if (*kptr).0 != 0 {
+            let handles = self.handles.as_ptr();
+            let values = self.values.as_ptr();
+            if (*handles.add(ind)).0 != 0 {
                 self.count -= 1;
-                *kptr = Handle(0);
-                Some(std::ptr::read(self.values.as_ptr().add(ind)))
+                let result = std::ptr::read(values.add(ind));
+                // shift back the entries that probed past the removed slot, so that their probe
+                // chains stay unbroken
+                let mask = self.capacity - 1;
+                let mut hole = ind;
+                let mut j = (ind + 1) & mask;
+                loop {
+                    let k = *handles.add(j);
+                    if k.0 == 0 {
+                        break;
+                    }
+                    let home = (k.0.wrapping_mul(2654435769) as usize) & mask;
+                    // `k` may move into the hole if the hole lies on its probe path
+                    if (j.wrapping_sub(home) & mask) >= (j.wrapping_sub(hole) & mask) {
+                        *handles.add(hole) = k;
+                        std::ptr::copy_nonoverlapping(values.add(j), values.add(hole), 1);
+                        hole = j;
+                    }
+                    j = (j + 1) & mask;
+                }
+                *handles.add(hole) = Handle(0);
+                Some(result)
             } else {
                 None
             }
